@@ -172,3 +172,17 @@ def register(reg):
         ensures=["forall(range(0, len(result)), lambda i: " + GOOD.format(p="result[i]") + ")"],
         modifies=["self", "old(self.all_solutions)"],
         props=["C08"])
+
+    # the constructor: the imbalance the matcher works on is the imbalance it was given (zero entries dropped,
+    # an explicit zero charge added) and the rule list is a re-ordering of the database [C08]
+    reg.contract(
+        F, "SyntheticRuleMatcher.__init__",
+        params={"self": Obj("SyntheticRuleMatcher"), "rule_dict": List(RULE), "data_dict": COMP, "select": STR, "ranking": VAL},
+        ensures=[
+            "forall(STR, lambda k: get0(self.data_dict, k) == old(get0(data_dict, k)))",
+            "'Q' in self.data_dict and forall(STR, lambda k: implies(k in self.data_dict and k != 'Q', self.data_dict[k] != 0))",
+            "len(self.rule_dict) == len(rule_dict) and forall(range(0, len(self.rule_dict)), lambda j: in_list(self.rule_dict[j], rule_dict))",
+            "self.select == select and implies(select == 'all', len(self.all_solutions) == 0)",
+        ],
+        modifies=["self", "data_dict"],
+        props=["C08"])
